@@ -52,44 +52,29 @@ inductive Cls where
   | baseOther           -- SystemExit, GeneratorExit, user subclasses of BaseException: NOT an Exception
   deriving Repr, DecidableEq
 
-/-- the classes that are named in except clauses / contextlib.suppress of the modelled code -/
-inductive Handler where
-  | exception | baseException | connClosed | pyroTimeout | communication | pyroError | security
-  | osError | sockTimeout | keyboardInterrupt
-  deriving Repr, DecidableEq
+/-- `issubclass(c, Exception)` (obligation `C05_gen_classes`: as for the real classes) -/
+def isException : Cls → Bool
+  | .keyboardInterrupt => false
+  | .baseOther => false
+  | _ => true
 
-/-- `issubclass(c, h)` (obligation `C05_gen_subclass`: equal to the table extracted from the real classes) -/
-def isSub : Cls → Handler → Bool
-  | _, .baseException => true
-  | .keyboardInterrupt, .keyboardInterrupt => true
-  | .keyboardInterrupt, _ => false
-  | .baseOther, _ => false
-  | _, .exception => true
-  | .connClosed, .connClosed | .connClosed, .communication | .connClosed, .pyroError => true
-  | .pyroTimeout, .pyroTimeout | .pyroTimeout, .communication | .pyroTimeout, .pyroError => true
-  | .protocol, .communication | .protocol, .pyroError => true
-  | .serialize, .communication | .serialize, .pyroError => true
-  | .security, .security | .security, .pyroError => true
-  | .osError, .osError => true
-  | .sockTimeout, .osError | .sockTimeout, .sockTimeout => true
-  | _, _ => false
+/-- a containment layer is described by the classes it contains: `c` is in the list iff an exception of
+    class `c` raised inside the layer does NOT leave it.  The lists are measured on the real code by the
+    extractor (each layer is run with a stand-in daemon / socket that raises a representative of every
+    class, the sockets' auxiliary methods - getpeername, shutdown ... - failing as after a reset), so
+    they do not depend on how the except clauses are spelled or split over helper methods. -/
+def caught (cs : List Cls) (c : Cls) : Bool := cs.contains c
 
-def isException (c : Cls) : Bool := isSub c .exception
-
-def caught (hs : List Handler) (c : Cls) : Bool := hs.any (isSub c)
-
-/-- the except-ladders (every clause of a containment layer has the same effect, so a layer is the
-    list of class names it catches) -/
 structure Cfg where
-  thrJob : List Handler       -- ClientConnectionJob.__call__: clauses around daemon.handleRequest (each: break → finally)
-  thrShake : List Handler     -- ClientConnectionJob.handleConnection: around daemon._handshake (close, return False)
-  thrDeny : List Handler      -- ClientConnectionJob.denyConnection: around daemon._handshake(denied_reason)
-  thrWorker : List Handler    -- Worker.run: around self.job()
-  thrEvents : List Handler    -- SocketServer_Threadpool.events: contextlib.suppress(...)
-  thrLoop : List Handler      -- SocketServer_Threadpool.loop: clauses that `continue`
-  muxReq : List Handler       -- SocketServer_Multiplex.handleRequest: clauses (each: return False)
-  muxShake : List Handler     -- SocketServer_Multiplex._handleConnection: around SocketConnection() / _handshake
-  muxLoop : List Handler      -- SocketServer_Multiplex.loop: clauses that continue the loop
+  thrJob : List Cls       -- ClientConnectionJob: around daemon.handleRequest in the request loop (then the `finally`)
+  thrShake : List Cls     -- ClientConnectionJob: around daemon._handshake of an accepted connection (close, no loop)
+  thrDeny : List Cls      -- ClientConnectionJob.denyConnection: around daemon._handshake(denied_reason)
+  thrWorker : List Cls    -- Worker.run: around self.job()
+  thrEvents : List Cls    -- SocketServer_Threadpool.events: swallowed inside events() itself
+  thrLoop : List Cls      -- SocketServer_Threadpool.loop: what leaves events() and is swallowed by loop()
+  muxReq : List Cls       -- SocketServer_Multiplex.handleRequest: around daemon.handleRequest (returns inactive)
+  muxShake : List Cls     -- SocketServer_Multiplex._handleConnection: around daemon._handshake
+  muxLoop : List Cls      -- SocketServer_Multiplex.loop: what leaves events() and is swallowed by loop()
   deriving Repr, DecidableEq
 
 inductive Kind where
